@@ -23,6 +23,8 @@ from liquid.token import TOKEN_LBRACKET
 from liquid.token import TOKEN_RBRACKET
 from liquid.token import TOKEN_WORD
 
+from ._tokenize import _keywords as KEYWORDS
+
 if TYPE_CHECKING:
     from liquid import Environment
     from liquid import RenderContext
@@ -53,8 +55,10 @@ class Path(Expression):
             if isinstance(segment, Path):
                 buf.append(f"[{segment}]")
             elif isinstance(segment, str):
-                if RE_PROPERTY.fullmatch(segment):
+                if RE_PROPERTY.fullmatch(segment) and segment not in KEYWORDS:
                     # Shorthand notation. The root segment has no leading dot.
+                    # Not for names the tokenizer reads as a keyword (`and`,
+                    # `nil`, `limit`, ...); those are only reachable in brackets.
                     buf.append(f".{segment}" if i else segment)
                 else:
                     # Liquid string literals have no escape sequences, so don't
